@@ -25,6 +25,10 @@ A small POSIX-like file-system model, owned by property C18 (not shared).
   `checkFixed` = the proposed repair (`fixes/C18-extract-confinement.diff`): the part of the name
   below `dest` has no `..` component, and the target of a symlink/hardlink member is relative
   and has no `..` component ("descending").
+  `checkNormpath` = the tempting relaxation "link target relative and, after `os.path.normpath` against the
+  directory holding the link, still under `dest`"; not what the code does — modelled to state exactly how it
+  relates to `checkFixed` (`Props.C18.checkFixed_eq_normpath_and_descending`) and that it is unsound on chains
+  of links placed through earlier links (`Witness.C18.normpath_link_rule_unsound_*`).
 * `deploy…` = `ExperimentPackage.expandPackageToDirectory` (storage.py 566-618) for a single-file
   package with a manifest, `validateOld/validateFixed` = `Manifest.validate` (flowir.py 1236-1252).
 
@@ -313,6 +317,46 @@ def stageExtractOld (dest : Path) (st : St) (ms : List Member) : St × Option Er
 /-- `StageReference`, extract branch, repaired -/
 def stageExtractFixed (dest : Path) (st : St) (ms : List Member) : St × Option Err :=
   if checkFixed dest ms then extractAll dest st (ms.map (relativize dest)) else (st, some Err.rejected)
+
+/-! ## the tempting relaxation: judge link targets by textual normalisation
+
+Archives of software trees contain links such as `lib/libx.so -> ../lib64/libx.so`, which `checkFixed`
+refuses.  The obvious relaxation resolves the link text *textually* (`os.path.normpath`) against the directory
+that holds the link (the archive root for a hard link) and accepts it when the result is still under `dest`.
+It is modelled here as `checkNormpath` only to prove (`Witness/C18.lean`) that it is unsound: normalisation
+knows nothing of the links that earlier members of the same archive have created, so a member placed *through*
+an earlier link, a hard link that copies an earlier link into another directory, or a link whose target passes
+through an earlier link is judged at a different place than the one the kernel uses. -/
+
+/-- directory part (all components but the last) -/
+def dirSegs (l : List Seg) : List Seg :=
+  match splitLastSeg l with
+  | some (i, _) => i
+  | none => []
+
+/-- a relative path stays at or below its start when its normal form has no leading `..`
+(`normalize false` keeps `..` only in front) -/
+def normConfined (l : List Seg) : Bool := allNames (normalize false [] l)
+
+def memberOkNormpath (dest : Path) : Member → Bool
+  | Member.file n => prefixOk dest n && allNames (below dest n)
+  | Member.dir n => prefixOk dest n && allNames (below dest n)
+  | Member.sym n t => prefixOk dest n && allNames (below dest n) && !t.abs &&
+      normConfined (dirSegs (below dest n) ++ t.segs)
+  | Member.hard n t => prefixOk dest n && allNames (below dest n) && !t.abs && normConfined t.segs
+
+/-- names as in `checkFixed`; link targets relative and textually confined -/
+def checkNormpath (dest : Path) (ms : List Member) : Bool := ms.all (memberOkNormpath dest)
+
+/-- does the member carry a link target that is absolute or has a `..` component? -/
+def linkTargetDescending : Member → Bool
+  | Member.sym _ t => descending t
+  | Member.hard _ t => descending t
+  | _ => true
+
+/-- `StageReference`, extract branch, with the textual-normalisation rule for link targets -/
+def stageExtractNormpath (dest : Path) (st : St) (ms : List Member) : St × Option Err :=
+  if checkNormpath dest ms then extractAll dest st (ms.map (relativize dest)) else (st, some Err.rejected)
 
 /-! ## copy and link staging (data.py 207-218) -/
 
